@@ -825,6 +825,51 @@ func c20Ops() []immOp {
 			})
 		})
 	})
+	// --- refined unknowns whose nullness is still open, refined again (the refinement record of
+	// the value a builder starts from belongs to that value)
+	add("V4=unknown(string) prefix p (nullness open)", "", true, func(st *immState) (cty.Value, bool) {
+		return guard(func() cty.Value { return cty.UnknownVal(cty.String).Refine().StringPrefixFull("p").NewValue() })
+	})
+	add("V4=unknown(list) length >= 1 (nullness open)", "", true, func(st *immState) (cty.Value, bool) {
+		return guard(func() cty.Value {
+			return cty.UnknownVal(cty.List(cty.String)).Refine().CollectionLengthLowerBound(1).NewValue()
+		})
+	})
+	add("V4=unknown(number) <= 9 (nullness open)", "", true, func(st *immState) (cty.Value, bool) {
+		return guard(func() cty.Value {
+			return cty.UnknownVal(cty.Number).Refine().NumberRangeUpperBound(cty.NumberIntVal(9), true).NewValue()
+		})
+	})
+	add("V4=V4.Refine().Null().NewValue()", "", true, func(st *immState) (cty.Value, bool) {
+		return guard(func() cty.Value { return st.V[4].Refine().Null().NewValue() })
+	})
+	add("V4=V4.RefineNotNull()", "", true, func(st *immState) (cty.Value, bool) {
+		return guard(func() cty.Value { return st.V[4].RefineNotNull() })
+	})
+	add("V4=V4.Refine().NewValue()", "", true, func(st *immState) (cty.Value, bool) {
+		return guard(func() cty.Value { return st.V[4].Refine().NewValue() })
+	})
+	add("B=V4.Refine()", "B", false, func(st *immState) (cty.Value, bool) {
+		return guard(func() cty.Value { st.B = st.V[4].Refine(); return cty.NilVal })
+	})
+	add("B.Null()", "B", false, func(st *immState) (cty.Value, bool) {
+		return guard(func() cty.Value {
+			if st.B == nil {
+				panic("no builder")
+			}
+			st.B = st.B.Null()
+			return cty.NilVal
+		})
+	})
+	add("B.NotNull()", "B", false, func(st *immState) (cty.Value, bool) {
+		return guard(func() cty.Value {
+			if st.B == nil {
+				panic("no builder")
+			}
+			st.B = st.B.NotNull()
+			return cty.NilVal
+		})
+	})
 	// --- path set
 	add("P.Add / P.AddAllSteps", "P", false, func(st *immState) (cty.Value, bool) {
 		return guard(func() cty.Value {
